@@ -142,7 +142,21 @@ impl PlFold for Flattener {
                             ..pipeline
                         });
                     }
-                    kind => (self.fold_expr(*t.input)?, fold_transform_kind(self, kind)?),
+                    kind => {
+                        let input = self.fold_expr(*t.input)?;
+
+                        // The relation given to join / append is a pipeline of its own: the sort of
+                        // this pipeline does not apply to its transforms, and its sort does not
+                        // apply to the transforms that follow the join / append.
+                        if matches!(kind, TransformKind::Join { .. } | TransformKind::Append(_)) {
+                            let sort = std::mem::take(&mut self.sort);
+                            let kind = fold_transform_kind(self, kind)?;
+                            self.sort = sort;
+                            (input, kind)
+                        } else {
+                            (input, fold_transform_kind(self, kind)?)
+                        }
+                    }
                 };
 
                 // In case we're appending or joining another pipeline, we do not want to apply the
